@@ -53,7 +53,9 @@ func MustParseTime(value string) Time {
 // TimeFromProto takes a proto Time and returns a System Time.
 func TimeFromProto(proto *dtpb.Time) Time {
 	duration := fhirconv.TimeToDuration(proto)
-	t := time.UnixMicro(duration.Microseconds()).In(time.UTC)
+	// Anchor the time of day on the date ParseTime uses (year 0), so that a Time
+	// read from an element and a Time literal are comparable instants.
+	t := time.Date(0, time.January, 1, 0, 0, 0, 0, time.UTC).Add(duration)
 	var l layout
 	switch proto.Precision {
 	case dtpb.Time_MICROSECOND:
